@@ -290,6 +290,56 @@ func runErrorDelivery(b *harness.B) {
 	}
 }
 
+// runValidatorErrors: what the library's own request validators answer to a malformed request is an error the host
+// sends back as the RPC's response: it has to be deliverable, however many entries of a maximal batch are malformed.
+func runValidatorErrors(b *harness.B) {
+	g := G{r: b.SubRng("validator-errors")}
+	until := time.Date(2100, 1, 1, 0, 0, 0, 0, time.UTC)
+	acct := func() rhp4.Account { return rhp4.Account(types.NewPrivateKeyFromSeed(g.bytes(32)).PublicKey()) }
+	for _, n := range []int{1, 3, 40, 400, int(rhp4.MaxAccountBatchSize), int(rhp4.MaxAccountBatchSize) + 1} {
+		var att rhp4.RPCAttachPoolsRequest
+		var det rhp4.RPCDetachPoolsRequest
+		var fund rhp4.RPCFundAccountsRequest
+		var rep rhp4.RPCReplenishAccountsRequest
+		for i := 0; i < n; i++ {
+			att.Attachments = append(att.Attachments, rhp4.PoolAttachment{Account: acct(), Pool: acct(), ValidUntil: until}) // unsigned
+			det.Detachments = append(det.Detachments, rhp4.PoolDetachment{Account: acct(), Pool: acct(), ValidUntil: until})
+			fund.Deposits = append(fund.Deposits, rhp4.AccountDeposit{Account: acct()}) // zero amount
+			rep.Accounts = append(rep.Accounts, rhp4.Account{})                          // unset account
+		}
+		fund.ContractID, rep.ContractID = types.FileContractID{1}, types.FileContractID{1}
+		for _, c := range []struct {
+			name string
+			err  error
+			resp func() rhp4.Object
+		}{
+			{"RPCAttachPoolsRequest", att.Validate(), func() rhp4.Object { return new(rhp4.RPCAttachPoolsResponse) }},
+			{"RPCDetachPoolsRequest", det.Validate(), func() rhp4.Object { return new(rhp4.RPCDetachPoolsResponse) }},
+			{"RPCFundAccountsRequest", fund.Validate(), func() rhp4.Object { return new(rhp4.RPCFundAccountsResponse) }},
+			{"RPCReplenishAccountsRequest", rep.Validate(), func() rhp4.Object { return new(rhp4.RPCReplenishAccountsResponse) }},
+		} {
+			b.Eval(1)
+			b.Distinct("validator-error", c.name, n)
+			var want *rhp4.RPCError
+			if c.err == nil || !errors.As(c.err, &want) {
+				b.Count("malformed_batches_not_refused_with_an_rpc_error(observed)", 1)
+				continue
+			}
+			var buf bytes.Buffer
+			if err := rhp4.WriteResponse(&buf, want); err != nil {
+				b.Violate("C19/write-error/rhp4.RPCError", err.Error(), nil)
+				continue
+			}
+			err := rhp4.ReadResponse(&buf, c.resp())
+			b.Count("validator_errors_sent_as_responses", 1)
+			var got *rhp4.RPCError
+			if !errors.As(err, &got) || got.Code != want.Code || got.Description != want.Description {
+				b.Violate("C19/error-delivery/validator-error-not-delivered/"+c.name, fmt.Sprintf("%s.Validate refuses a batch of %d malformed entries with an RPCError of %d description bytes; sent as the response it arrives as: %v", c.name, n, len(want.Description), err), map[string]any{"entries": n, "description_len": len(want.Description)})
+			}
+		}
+	}
+}
+
 // ---- caller-supplied limits (RHP2, RHP3) ----
 
 // countConn counts the bytes Read returns.
